@@ -46,7 +46,7 @@ CLAIMED.update({
 
 CLAIMED.update({
  "C04": ("Bounded symbolic model checking of the real Map / Unmap / Translate / PageDirectoryTable.Init/Map/Unmap against an independent software MMU over a physical-memory region: every recursive-window address walk() produces is translated by four dependent loads from that memory; N operations on pages from a menu of 7 representative pages (all sharing patterns of table levels, both canonical halves, the temporary-mapping page) with symbolic frames, flags and junk in freshly allocated frames, allocator failure at a symbolic call; afterwards the MMU and Translate agree with a reference map for an arbitrary probe, leaf entries carry exactly the requested flags, changed pages are flushed, the recursive slot is intact; operations on an inactive root leave every page-table frame of the active space bit-for-bit unchanged.",
-         "Pages are enumerated (menu), contents symbolic; physical memory of 8 (12) frames at its physical address; freshly allocated frames hold one arbitrary word replicated in all slots; the nextAddrFn seam maps Map's entry-pointer arithmetic back to the designated table (the <<9 recursive arithmetic of that one expression is not exercised); mapTemporaryFn is the identity stub of the repository's tests; TLB is a log.", "7 C04"),
+         "Pages are enumerated (menu), contents symbolic; physical memory of 8 (12) frames at its physical address; freshly allocated frames hold one arbitrary word replicated in all slots; the nextAddrFn seam maps Map's entry-pointer arithmetic back to the designated table (the <<9 recursive arithmetic of that one expression is not exercised); mapTemporaryFn is the identity stub of the repository's tests; TLB is a log of invalidations in the operation harness; the inactive-space harness also runs with an MMU that caches recursive-window translations until they are invalidated (open known finding KF-C04-1).", "7 C04"),
  "C08": ("Transition system generated on every run from kernel/sync/spinlock_amd64.s and the go/ssa of Spinlock.Acquire/TryToAcquire/Release (macro-step folding of thread-local instructions): bounded model checking over every schedule (symbolic scheduler) of 2 threads x 1 lock operation x 13 macro-steps (thorough: 2x2x23, 3x1x19) and a one-step induction from an arbitrary state satisfying a label-free invariant for 2, 3 (4) threads: at most one holder, no lost update in the critical section, a failed TryToAcquire leaves the lock word unchanged, a release frees the lock, a free lock can be taken, no task holds the lock while the lock word reads free, and a blocking acquire running alone on a free lock takes it within 12 macro-steps. The Go method bodies are compiled from SSA into node graphs (one node per sync/atomic call or call into the assembly), so Go-level changes to the lock are modelled.",
          "Sequential consistency + atomic locked XCHG (x86-TSO differs only by store->load reordering, which locked instructions drain); aligned MOVL atomic; yieldFn modelled as a call without effect on the lock word; liveness/fairness under contention outside; an induction counterexample without a bounded-model counterexample is reported INCONCLUSIVE (its pre-state may be unreachable); counterexamples are schedule traces (no native replay of an instruction-level schedule).", "7 C08"),
 })
